@@ -49,7 +49,7 @@ Definition types_set_per_run (f : string) : bool :=
 Definition reset_evidence (c : string) : bool :=
   if String.eqb c "carried:nodePath" then gen_state_reset_when_reused && gen_reset_truncates_node_path
   else if String.eqb c "carried:evalEnv" then
-    gen_state_reset_when_reused && gen_reset_resets_eval_stack && gen_quasigo_call_truncates_stack &&
+    gen_state_reset_when_reused && gen_reused_state_env_updated && gen_reset_resets_eval_stack && gen_quasigo_call_truncates_stack &&
     value_stack_covered && policy_is_always variadic_len_policy
   else if String.eqb c "carried:typematchState" then gen_typematch_resets_bindings_per_match
   else if String.eqb c "carried:gogrepSubState" then policy_is_always contains_preset_policy && types_set_per_run "gogrepSubState"
@@ -69,6 +69,11 @@ Lemma carried_roles_kept : carried_keys_ok gen_rr_literal = true /\ carried_keys
 Proof. vm_compute. auto. Qed.
 
 Lemma carried_all_reset : forallb reset_evidence (carried_of gen_rr_literal ++ carried_of gen_fp_literal) = true.
+Proof. vm_compute. reflexivity. Qed.
+
+(* nothing outlives engines and states: no function of ruleguard/... or internal/... writes a package-level variable
+   (assignment, ++/--, delete(), Store / LoadOrStore / Put / ... on it) outside init() *)
+Lemma no_package_level_state : gen_pkg_level_writes = [].
 Proof. vm_compute. reflexivity. Qed.
 
 Lemma contains_preset_always : contains_preset_policy = WriteAlways.
